@@ -115,14 +115,80 @@ def handler_kind(h: ast.ExceptHandler) -> tuple[str, bool]:
     return "other", returns
 
 
+INLINE_DEPTH = 3
+
+
+def body_without_docstring(fn: ast.FunctionDef) -> list[ast.stmt]:
+    body = list(fn.body)
+    if body and isinstance(body[0], ast.Expr) and isinstance(body[0].value, ast.Constant) and isinstance(body[0].value.value, str):
+        body = body[1:]
+    return body
+
+
 class FnTables:
-    def __init__(self, fn_name: str, fn: ast.FunctionDef):
+    """Calls and phases of one function.  Private helpers of the same class that the function calls directly
+    (`self._name(…)`, defined in `helpers`) are inlined, transitively up to INLINE_DEPTH: a helper whose body is a
+    single `return <expr>` stands for that expression (in a condition, too); a helper called as a statement stands
+    for its body — its try/except structure becomes phases of the caller with their guards and handlers in place
+    (only when it contains no `return`; otherwise the call stays a call of its own and the Lean side, which does not
+    know the callee, rejects the table).  The phase table therefore does not depend on how the tick is cut into
+    private helper methods."""
+
+    def __init__(self, fn_name: str, fn: ast.FunctionDef, helpers: dict[str, ast.FunctionDef] | None = None):
         self.fn_name = fn_name
+        self.helpers = helpers or {}
         self.calls: list[tuple[str, str, list[str], bool]] = []       # fn, callee, catches, inHandler
         self.phases: list[dict] = []
-        self._walk(fn.body, [], False, [], ("none", False))
+        self._walk(fn.body, [], False, [], ("none", False), 0)
 
-    def _record(self, node: ast.AST, catches: list[str], in_handler: bool, conds: list[str], hk: tuple[str, bool]):
+    # -- inlining of private helpers
+    def _helper(self, call: ast.AST) -> ast.FunctionDef | None:
+        if isinstance(call, ast.Call) and isinstance(call.func, ast.Attribute) and isinstance(call.func.value, ast.Name) \
+                and call.func.value.id == "self" and call.func.attr.startswith("_") and not call.func.attr.startswith("__"):
+            return self.helpers.get(call.func.attr)
+        return None
+
+    def _expr_helper(self, call: ast.AST) -> ast.expr | None:
+        """the expression a call of a single-`return` helper stands for"""
+        h = self._helper(call)
+        if h is not None:
+            body = body_without_docstring(h)
+            if len(body) == 1 and isinstance(body[0], ast.Return) and body[0].value is not None:
+                return body[0].value
+        return None
+
+    def _stmt_helper(self, st: ast.stmt) -> list[ast.stmt] | None:
+        """the statements a statement-level call of a helper without `return` stands for"""
+        if isinstance(st, ast.Expr):
+            h = self._helper(st.value)
+            if h is not None and not any(isinstance(n, (ast.Return, ast.Yield, ast.YieldFrom)) for n in ast.walk(h)):
+                return body_without_docstring(h)
+        return None
+
+    def _subst(self, e: ast.expr, depth: int) -> ast.expr:
+        """`e` with calls of single-`return` helpers replaced by their expression"""
+        if depth >= INLINE_DEPTH:
+            return e
+        tables = self
+
+        class T(ast.NodeTransformer):
+            def visit_Call(self, node):
+                node = self.generic_visit(node)
+                r = tables._expr_helper(node)
+                return tables._subst(r, depth + 1) if r is not None else node
+        import copy
+        return T().visit(copy.deepcopy(e))
+
+    def _record(self, node: ast.AST, catches: list[str], in_handler: bool, conds: list[str], hk: tuple[str, bool],
+                depth: int = 0):
+        if isinstance(node, ast.expr):
+            node = self._subst(node, depth)
+        elif isinstance(node, ast.stmt):
+            import copy
+            node = copy.deepcopy(node)
+            for field, value in ast.iter_fields(node):
+                if isinstance(value, ast.expr):
+                    setattr(node, field, self._subst(value, depth))
         for c in calls_in_order(node):
             name = dotted(c.func)
             self.calls.append((self.fn_name, name, list(catches), in_handler))
@@ -132,10 +198,16 @@ class FnTables:
                                 "handler": hk[0] if catches else "none", "returns": hk[1] if catches else False,
                                 "nargs": len(c.args) + len(c.keywords)})
 
-    def _walk(self, stmts: list[ast.stmt], catches: list[str], in_handler: bool, conds: list[str], hk: tuple[str, bool]):
+    def _walk(self, stmts: list[ast.stmt], catches: list[str], in_handler: bool, conds: list[str], hk: tuple[str, bool],
+              depth: int = 0):
         conds = list(conds)
         for st in stmts:
-            if isinstance(st, ast.Try):
+            inl = self._stmt_helper(st) if depth < INLINE_DEPTH else None
+            if inl is not None:
+                for arg in list(st.value.args) + [k.value for k in st.value.keywords]:      # arguments are evaluated first
+                    self._record(arg, catches, in_handler, conds, hk, depth)
+                self._walk(inl, catches, in_handler, conds, hk, depth + 1)
+            elif isinstance(st, ast.Try):
                 types: list[str] = []
                 kinds: list[tuple[str, bool]] = []
                 for h in st.handlers:
@@ -145,29 +217,37 @@ class FnTables:
                 kind = kinds[0] if kinds and all(k == kinds[0] for k in kinds) else ("other", False)
                 if catches:      # a try nested in a try: not a shape the model knows
                     kind = ("other", False)
-                self._walk(st.body, types + catches, in_handler, conds, kind)
+                self._walk(st.body, types + catches, in_handler, conds, kind, depth)
                 for h in st.handlers:
-                    self._walk(h.body, catches, True, conds, hk)
-                self._walk(st.orelse, catches, in_handler, conds, hk)
-                self._walk(st.finalbody, catches, in_handler, conds, hk)
+                    self._walk(h.body, catches, True, conds, hk, depth)
+                self._walk(st.orelse, catches, in_handler, conds, hk, depth)
+                self._walk(st.finalbody, catches, in_handler, conds, hk, depth)
             elif isinstance(st, ast.If):
-                self._record(st.test, catches, in_handler, conds, hk)
-                t = ast.unparse(st.test)
+                test = self._subst(st.test, depth)
+                self._record(test, catches, in_handler, conds, hk, INLINE_DEPTH)
+                t = ast.unparse(test)
                 if not st.orelse and len(st.body) == 1 and isinstance(st.body[0], ast.Return):
                     conds.append(f"not ({t})")          # early return: everything after runs under the negation
                     continue
-                self._walk(st.body, catches, in_handler, conds + [t], hk)
-                self._walk(st.orelse, catches, in_handler, conds + [f"not ({t})"], hk)
+                self._walk(st.body, catches, in_handler, conds + [t], hk, depth)
+                self._walk(st.orelse, catches, in_handler, conds + [f"not ({t})"], hk, depth)
             elif isinstance(st, (ast.For, ast.While)):
-                self._record(st.iter if isinstance(st, ast.For) else st.test, catches, in_handler, conds, hk)
-                self._walk(st.body, catches, in_handler, conds, hk)
-                self._walk(st.orelse, catches, in_handler, conds, hk)
+                self._record(st.iter if isinstance(st, ast.For) else st.test, catches, in_handler, conds, hk, depth)
+                self._walk(st.body, catches, in_handler, conds, hk, depth)
+                self._walk(st.orelse, catches, in_handler, conds, hk, depth)
             elif isinstance(st, ast.With):
                 for it in st.items:
-                    self._record(it.context_expr, catches, in_handler, conds, hk)
-                self._walk(st.body, catches, in_handler, conds, hk)
+                    self._record(it.context_expr, catches, in_handler, conds, hk, depth)
+                self._walk(st.body, catches, in_handler, conds, hk, depth)
             else:
-                self._record(st, catches, in_handler, conds, hk)
+                self._record(st, catches, in_handler, conds, hk, depth)
+
+
+def class_methods(tree: ast.Module, cls: str) -> dict[str, ast.FunctionDef]:
+    for n in tree.body:
+        if isinstance(n, ast.ClassDef) and n.name == cls:
+            return {m.name: m for m in n.body if isinstance(m, ast.FunctionDef)}
+    raise KeyError(cls)
 
 
 def find_method(tree: ast.Module, cls: str, name: str) -> ast.FunctionDef:
@@ -198,7 +278,10 @@ def _tables(root: Path) -> dict:
     eng = ast.parse((root / "engine/engine.py").read_text())
     interp = ast.parse((root / "lang/exec/pinterpreter.py").read_text())
     events = ast.parse((root / "lang/exec/events.py").read_text())
-    fns = {name: FnTables(name, find_method(eng, "Engine", py)) for name, py in [
+    methods = class_methods(eng, "Engine")
+    # (private helpers are inlined into the tick and the process-image functions; `_apply_safe_state` is a table of its own)
+    helpers = {k: v for k, v in methods.items() if k != "_apply_safe_state"}
+    fns = {name: FnTables(name, methods[py], helpers if name in ("tick", "read", "write") else None) for name, py in [
         ("tick", "tick"), ("read", "read_process_image"), ("write", "write_process_image"),
         ("set_error_state", "set_error_state"), ("apply_safe_state", "_apply_safe_state")]}
     # flatten: the calls `self.read_process_image()` / `self.write_process_image()` of the tick are replaced by the
@@ -225,18 +308,31 @@ def _tables(root: Path) -> dict:
                         and not any(isinstance(n, ast.Raise) for n in ast.walk(tr.handlers[0]))
                         and not tr.orelse and not tr.finalbody)
 
-    # the wrapper `PInterpreter.visit`: does the handler around the concrete visit set node.failed?
+    # the wrapper `PInterpreter.visit`: the handler for Exception around the concrete visit sets `node.failed = True`
+    # and stores (exception, node) in an attribute of the interpreter that `PInterpreter.tick` reads and turns into a
+    # raise — whatever that attribute is called
     visit = find_method(interp, "PInterpreter", "visit")
-    wrapper_ok = False
+    itick = find_method(interp, "PInterpreter", "tick")
+    read_and_raised = {n.attr for n in ast.walk(itick) if isinstance(n, ast.Attribute) and isinstance(n.ctx, ast.Load)
+                       and isinstance(n.value, ast.Name) and n.value.id == "self"} \
+        if any(isinstance(n, ast.Raise) for n in ast.walk(itick)) else set()
+    wrapper_ok, error_attr = False, None
     for n in ast.walk(visit):
         if isinstance(n, ast.Try):
             for h in n.handlers:
-                if "Exception" in handler_types(h):
-                    txt = ast.unparse(h)
-                    if "node.failed = True" in txt and "_last_error" in txt:
-                        wrapper_ok = True
+                if "Exception" in handler_types(h) and h.name:
+                    marks = any(isinstance(st, ast.Assign) and len(st.targets) == 1 and dotted(st.targets[0]) == "node.failed"
+                                and isinstance(st.value, ast.Constant) and st.value.value is True for st in h.body)
+                    stores = [st.targets[0].attr for st in h.body
+                              if isinstance(st, ast.Assign) and len(st.targets) == 1 and isinstance(st.targets[0], ast.Attribute)
+                              and isinstance(st.targets[0].value, ast.Name) and st.targets[0].value.id == "self"
+                              and isinstance(st.value, ast.Tuple)
+                              and [dotted(e) for e in st.value.elts] == [h.name, "node"]]
+                    stores = [a for a in stores if a in read_and_raised]
+                    if marks and stores:
+                        wrapper_ok, error_attr = True, stores[0]
     return {"calls": all_calls, "phases": phases, "set_error_calls": set_error_calls, "swallows": swallows,
-            "wrapper_ok": wrapper_ok}
+            "wrapper_ok": wrapper_ok, "interp_error_attr": error_attr}
 
 
 def generate() -> Path:
